@@ -20,7 +20,7 @@ def sh(cmd, cwd, timeout=600):
     # own process group: test helper binaries a mutant leaves spinning (m3's m3testemit) are killed
     # with it, otherwise they burn CPU for hours after the sweep
     import signal
-    p = subprocess.Popen(cmd, cwd=cwd, env=ENV, stdout=subprocess.PIPE, stderr=subprocess.STDOUT, text=True, start_new_session=True)
+    p = subprocess.Popen(cmd, cwd=cwd, env=ENV, stdout=subprocess.PIPE, stderr=subprocess.STDOUT, text=True, errors="replace", start_new_session=True)
     try:
         out, _ = p.communicate(timeout=timeout)
         rc = p.returncode
